@@ -4,6 +4,17 @@ import impl
 import proto
 
 
+import re
+
+_NEG_ZERO = re.compile(r'S"-(0(?:\.0*)?(?:E[+-]?[0-9]+)?)"')
+
+
+def canon_signed_zero(line):
+    """The model's decimals have no signed zero (CPython's `Decimal` has: -1 * 0.000 = -0.000).  The sign of a zero is
+    visible only through str(): such strings are compared modulo that sign."""
+    return _NEG_ZERO.sub(lambda m: 'S"%s"' % m.group(1), line)
+
+
 class SqlCase:
     def __init__(self, tables, stmt, params=None, execute=True, name='sql'):
         self.tables = tables          # list of impl.HTable
@@ -22,7 +33,8 @@ class SqlCase:
         key = tuple(id(t) for t in self.tables)
         setup = []
         if getattr(ctx, '_tables_key', None) != key:
-            setup = ['(cleartables)'] + [t.encode() for t in self.tables]
+            # every connection has the null table '' (one row, no column): `FROM #`
+            setup = ['(cleartables)', proto.enc_table('', [], [()], updatable=False)] + [t.encode() for t in self.tables]
             ctx._tables_key = key
             ctx._tables_keep = self.tables   # keep ids alive
         op = 'select' if self.execute else 'compile'
@@ -51,6 +63,11 @@ class SqlCase:
         ctx._tables_key_pending = None
         m = dict(meta or {})
         m.setdefault('stmt', self.stmt if isinstance(self.stmt, str) else lines[-1][:2000])
+        if canon is None:
+            canon = canon_signed_zero
+        else:
+            inner = canon
+            canon = lambda line: inner(canon_signed_zero(line))  # noqa: E731
         return ctx.check(self.name, lines, self.run_impl, nontrivial=nontrivial, meta=m,
                          payload=self.payload(), canon=canon)
 
